@@ -650,6 +650,114 @@ def timedelta_text(ctx):
             ctx.divergence('the model parses a timedelta text to another duration than str2timedelta', t, model=out, impl=real)
         elif out['ok'] is None and real is not None: ctx.count('timedelta-text-real-parses-more')
 
+# ----------------------------------------------------------------------------------------------------------------
+# inline constants: a value written as a literal in the query must select the rows the same value selects as a parameter
+# ----------------------------------------------------------------------------------------------------------------
+
+import operator
+OPS = [('==', operator.eq), ('!=', operator.ne), ('<', operator.lt), ('<=', operator.le), ('>', operator.gt), ('>=', operator.ge)]
+
+def const_source(v):
+    """Python source of the value as it would be written inside a query, or None when the type has no literal form"""
+    if isinstance(v, bool): return repr(v)
+    if isinstance(v, int): return repr(v)
+    if isinstance(v, float): return repr(v) if v == v and abs(v) != math.inf else None
+    if isinstance(v, str): return repr(v)
+    if isinstance(v, bytes): return repr(v)
+    if isinstance(v, Decimal): return "Decimal('%s')" % v if v.is_finite() else None
+    if isinstance(v, datetime): return 'datetime(%d, %d, %d, %d, %d, %d, %d)' % (v.year, v.month, v.day, v.hour, v.minute, v.second, v.microsecond)
+    if isinstance(v, date): return 'date(%d, %d, %d)' % (v.year, v.month, v.day)
+    if isinstance(v, time): return 'time(%d, %d, %d, %d)' % (v.hour, v.minute, v.second, v.microsecond)
+    if isinstance(v, timedelta): return 'timedelta(%d, %d, %d)' % (v.days, v.seconds, v.microseconds)
+    if isinstance(v, uuid.UUID): return "UUID('%s')" % v
+    return None
+
+def boundary_score(v):
+    """smaller = more of a boundary value (microsecond 0, whole seconds, midnight, trailing zeros, zero, empty)"""
+    if isinstance(v, datetime): return (v.microsecond != 0, v.second != 0, (v.hour, v.minute) != (0, 0))
+    if isinstance(v, time): return (v.microsecond != 0, v.second != 0, (v.hour, v.minute) != (0, 0))
+    if isinstance(v, timedelta): return (v.microseconds != 0, v.seconds != 0, v.days != 0)
+    if isinstance(v, Decimal): return (v != v.to_integral_value(), v != 0)
+    if isinstance(v, (int, float)): return (v != 0,)
+    if isinstance(v, (str, bytes)): return (len(v) != 0,)
+    return (False,)
+
+def run_ids(fn):
+    try: return sorted(fn())
+    except Exception as e: return 'raised ' + type(e).__name__
+
+def constants(ctx, db, ents, cs):
+    rng = ctx.rng
+    G = dict(datetime=datetime, date=date, time=time, timedelta=timedelta, Decimal=Decimal, UUID=uuid.UUID)
+    from pony.orm.dbproviders.sqlite import SQLiteValue
+    reqs, metas = [], []
+    for c in cs:
+        if c.py_type in (Json, IntArray, StrArray, FloatArray, LongStr): continue
+        E = ents[c.name]
+        with db_session:
+            try: rows = [(i, v) for i, v in select((e.id, e.v) for e in E)[:] if v is not None and isinstance(v, c.py_type if c.py_type is not float else (float, int))]
+            except Exception as e:
+                ctx.divergence('reading all rows of %s raised %s' % (c.name, type(e).__name__), c.name); continue
+        distinct = {}
+        for i, v in rows:
+            src = const_source(v)
+            if src is not None and (type(v).__name__, src) not in distinct: distinct[(type(v).__name__, src)] = v
+        vals = sorted(distinct.values(), key=lambda v: (boundary_score(v), repr(v)))
+        n = ctx.scale(8, 40)
+        picked = vals[:n] + (rng.sample(vals[n:], min(len(vals) - n, ctx.scale(6, 40))) if len(vals) > n else [])
+        ordered = c.py_type in (int, float, Decimal, date, time, datetime, timedelta, bool)
+        for v in picked:
+            src = const_source(v)
+            nul = isinstance(v, str) and chr(0) in v
+            G['E'] = E
+            for opname, opf in OPS:
+                if not ordered and opname not in ('==', '!='): continue
+                if isinstance(v, float) or c.py_type is float:
+                    if opname in ('==', '!='): continue          # float equality is translated with a tolerance: not a conversion question
+                p = v
+                as_param = run_ids(lambda: select(e.id for e in E if opf(e.v, p)) if False else
+                                   {'==': lambda: select(e.id for e in E if e.v == p), '!=': lambda: select(e.id for e in E if e.v != p),
+                                    '<': lambda: select(e.id for e in E if e.v < p), '<=': lambda: select(e.id for e in E if e.v <= p),
+                                    '>': lambda: select(e.id for e in E if e.v > p), '>=': lambda: select(e.id for e in E if e.v >= p)}[opname]()[:])
+                text = 'e.id for e in E if e.v %s %s' % (opname, src)
+                sql = None
+                def const_query():
+                    q = select(text, G)
+                    return q
+                try:
+                    with db_session:
+                        q = select(text, G)
+                        sql = ' '.join(q.get_sql().split())
+                        as_const = sorted(q[:])
+                except Exception as e:
+                    as_const = 'raised ' + type(e).__name__
+                with db_session:
+                    as_param = run_ids({'==': lambda: select(e.id for e in E if e.v == p)[:], '!=': lambda: select(e.id for e in E if e.v != p)[:],
+                                        '<': lambda: select(e.id for e in E if e.v < p)[:], '<=': lambda: select(e.id for e in E if e.v <= p)[:],
+                                        '>': lambda: select(e.id for e in E if e.v > p)[:], '>=': lambda: select(e.id for e in E if e.v >= p)[:]}[opname])
+                inline = sql is not None and '?' not in sql.split('WHERE', 1)[-1]
+                ctx.case(['const', c.name, src, opname], kind='oracle:constant:' + c.name.rstrip('0123456789_'))
+                ctx.count('constants:%s:%s' % (c.name.rstrip('0123456789_'), 'inline' if inline else 'became-a-parameter' if sql else 'no-sql'))
+                if nul and as_const == 'raised ProgrammingError':
+                    # sqlite3 refuses any statement text containing a NUL character, so such a str has no inline form on SQLite today
+                    # (proposal: fixes/C07-sqlite-str-constant-with-nul.diff); once it has one it is compared like every other value
+                    ctx.count('constants:str-with-NUL-has-no-inline-form'); continue
+                if as_const != as_param:
+                    ctx.violation('a value written as a constant in the query selects other rows than the same value passed as a parameter',
+                                  {'attribute': c.name, 'query': text, 'sql': sql, 'value': repr(v)}, observed={'constant': as_const if isinstance(as_const, str) else as_const[:20]},
+                                  expected={'parameter': as_param if isinstance(as_param, str) else as_param[:20]}, key='constant-vs-parameter:%s:%s:%s' % (c.name, opname, src))
+            # source tie of the rendering itself: SQLiteValue.__str__ against the model's constant text
+            if c.model in ('date', 'time', 'datetime') and ctx.driver.ok:
+                try: real = str(SQLiteValue('qmark', v))
+                except Exception as e: real = 'raised ' + type(e).__name__
+                reqs.append({'op': 'const', 'type': c.model, 'value': model_value(c, v)}); metas.append((c.name, v, real))
+    if reqs:
+        for (name, v, real), out in zip(metas, ctx.driver('C07', reqs)):
+            ctx.case(['const-text', name, repr(v)], kind='model-tie:constant-text')
+            m = "'" + ''.join(map(chr, out.get('text', []))) + "'" if 'text' in out else out
+            if m != real:
+                ctx.divergence('SQLiteValue.__str__ differs from the model constant text', [name, repr(v)], model=m, impl=real)
+
 def run(ctx):
     micro_tie(ctx)
     timedelta_text(ctx)
@@ -663,6 +771,7 @@ def run(ctx):
         reqs, metas = run_values(ctx, db, ents, rawcon, cs)
         compare_model(ctx, reqs, metas)
         timedelta_dense(ctx, db, ents)
+        constants(ctx, db, ents, cs)
         rawcon.close()
         foreign_texts(ctx, db, ents, path)
         db.disconnect()
